@@ -198,6 +198,6 @@ def swap(ctx, m, res):
         m.submit('C04:swap:two-sided:' + tag, hy, T.and_(T.mk('feq', absC(sw(b0[0])), T.mk('fneg', absC(b0[1]))), T.mk('feq', absC(sw(b0[1])), T.mk('fneg', absC(b0[0])))), key='C04:swap:two-sided', timeout=120,
                  note='CI(b,a) = -CI(a,b) mirrored (same critical value)')
         # upper one-sided of (b,a) at level L: [md' - c se, inf) with md' = -md: equals -(upper end of lower one-sided of (a,b))
-        hy = [absC(c) for c in pcl] + [absC(sw(c)) for c in pcu] + base
+        hy = [absC(c) for c in nokind(pcl)] + [absC(sw(c)) for c in nokind(pcu)] + base
         m.submit('C04:swap:one-sided:' + tag, hy, T.mk('feq', absC(sw(bu[0])), T.mk('fneg', absC(bl[0]))), key='C04:swap:one-sided', timeout=120, note='upper one-sided CI(b,a) = -(lower one-sided CI(a,b))')
     m.collect()
